@@ -20,7 +20,7 @@ def casing_stream(ctx):
     from .. import gen
     names += [gen.shape_name(rng) for _ in range(2000)] + [gen.wild_name(rng) for _ in range(2000)]
     ops = ["case " + n for n in names]
-    exe = c.build_rt()
+    exe = c.build_rt(own="")
     impl = c.run_lines(exe, ops)
     model = c.run_driver(ops)
     nd = c.diff_streams(ctx, "L3-casing", ops, impl, model)
